@@ -25,6 +25,7 @@ UMAP_RE = re.compile(r'^(?:std::)?unordered_map<(.*)>$')
 LIT_RE = re.compile(r'^(?:std::)?_List_(?:const_)?iterator<(.*)>$')
 MIT_RE = re.compile(r'^(?:std::)?(?:__detail::)?_Node_(?:const_)?iterator<(.*)>$')
 MITB_RE = re.compile(r'^(?:std::)?(?:__detail::)?_Node_iterator_base<(.*)>$')
+OPT_RE = re.compile(r'^(?:std::)?optional<(.*)>$')
 
 
 def shape_of(shapes, s):
@@ -43,6 +44,12 @@ def shape_of(shapes, s):
         if v[0] == 'ptr':
             v = I64          # list iterator: node id
         return ('struct', 'std::unordered_map', (('has', ('vec', ('bool',))), ('val', ('vec', v)), ('size', ('int', 64, False))))
+    m = OPT_RE.match(s)
+    if m:
+        # std::optional<T>: has + val (val is meaningless when has is false)
+        return ('struct', 'std::optional', (('has', ('bool',)), ('val', shapes.of(m.group(1)))))
+    if s in ('std::nullopt_t', 'nullopt_t'):
+        return ('struct', 'std::nullopt_t', ())
     m = LIT_RE.match(s)
     if m:
         return ('ptr', shapes.of(split_targs(m.group(1))[0]))
@@ -72,7 +79,24 @@ def ctor_model(ex, t, sh, ctype):
         return lambda ex, t, sh, ctype, args, n: _only_default(args, empty_map(sh), 'std::unordered_map')
     if sh[0] == 'struct' and sh[1] == 'std::map_iter':
         return lambda ex, t, sh, ctype, args, n: ex.calls._val(ex, args[0])
+    if sh[0] == 'struct' and sh[1] == 'std::nullopt_t':
+        return lambda ex, t, sh, ctype, args, n: SVal('std::nullopt_t', {})
+    if sh[0] == 'struct' and sh[1] == 'std::optional':
+        return optional_ctor
     return None
+
+
+def optional_ctor(ex, t, sh, ctype, args, n):
+    vsh = sh[2][1][1]
+    args = [a for a in args if a.get('kind') != 'CXXDefaultArgExpr']
+    if not args:
+        return SVal('std::optional', {'has': z3.BoolVal(False), 'val': default_value(vsh)})
+    v = ex.calls._val(ex, args[0])
+    if isinstance(v, SVal) and v.cls == 'std::nullopt_t':
+        return SVal('std::optional', {'has': z3.BoolVal(False), 'val': default_value(vsh)})
+    if isinstance(v, SVal) and v.cls == 'std::optional':
+        return v
+    return SVal('std::optional', {'has': z3.BoolVal(True), 'val': ex.coerce(v, vsh)})
 
 
 def _only_default(args, v, what):
